@@ -406,7 +406,9 @@ public:
     std::vector<std::pair<const FunctionDecl *, bool>> funcs;
     std::vector<const CXXRecordDecl *> classes;
     std::vector<const EnumDecl *> enums;
+    std::vector<const VarDecl *> globals;
     std::set<const void *> seen;
+    std::set<const void *> seenVars;
 
     explicit Visitor(Ctx &c) : C(c) {}
     bool shouldVisitTemplateInstantiations() const { return WithInst; }
@@ -438,6 +440,14 @@ public:
         }
         if (!seen.insert(RD).second) return true;
         classes.push_back(RD);
+        return true;
+    }
+    bool VisitVarDecl(VarDecl *VD) {
+        if (!VD->isFileVarDecl() || VD->isStaticDataMember() || isa<VarTemplateSpecializationDecl>(VD)) return true;
+        if (!VD->isThisDeclarationADefinition()) return true;
+        if (!C.underRoot(VD->getLocation())) return true;
+        if (!seenVars.insert(VD).second) return true;
+        globals.push_back(VD);
         return true;
     }
     bool VisitEnumDecl(EnumDecl *ED) {
@@ -569,6 +579,19 @@ public:
                                 });
                             }
                         });
+                    });
+                }
+            });
+            J.attributeArray("globals", [&] {
+                for (auto *VD : V.globals) {
+                    J.object([&] {
+                        J.attribute("name", VD->getNameAsString());
+                        J.attribute("qname", VD->getQualifiedNameAsString());
+                        J.attribute("did", C.declId(VD));
+                        J.attribute("t", C.typeStr(VD->getType()));
+                        if (VD->isConstexpr()) J.attribute("constexpr", true);
+                        D.loc(VD->getLocation());
+                        if (VD->hasInit() && VD->getInit()) J.attributeArray("c", [&] { D.stmt(VD->getInit()); });
                     });
                 }
             });
